@@ -168,6 +168,18 @@ def main(tier, seed, only=None):
                             "module-level objects other than Food.conversions and the herd table (option dictionaries are covered by C13's 'caller's dictionary untouched')"])]
     from harness import history as H
     groups.append(dict(H.GROUP, cases=H.cases(thorough, seed)))
+    groups.append(dict(H.GROUP_RESULTS, cases=H.result_cases(thorough)))
+    if not only or "options_object_survives_a_run" in only:
+        # third carrier: run_model_no_trade hands ONE options dictionary to every country of a batch; the only code that rewrites options per country is the
+        # known-to-fail table.  CrossHair (symbolic country code and option choice) decides that the rewrite goes to a private copy.
+        import os
+        from xhair import runner as XR
+        from harness.C13_options import _xh_results, replay_xh
+        xpath = os.path.join(os.path.dirname(os.path.dirname(os.path.abspath(__file__))), "xhair", "c13_options.py")
+        res = XR.run(xpath, timeout=150 if not thorough else 600, repo=vlib.REPO, only=["known_failing_rewrite_leaves_caller_untouched"], extra_env=dict(VERIF_REPO=vlib.REPO))
+        rep.add_group("options_object_survives_a_run", _xh_results(res, xpath, "the options dictionary shared by a batch is not rewritten"), functions=["ScenarioRunner.alter_scenario_if_known_to_fail"],
+                      bounds="country code = any string of <= 3 characters; 4 shut-off x 4 resilient-food settings", symbolic="the country code (str) and the two option choices (int)", assumptions=[],
+                      stubs=["none"], outside=["other writers of the options dictionary (the dispatcher's own frame condition is C13)"], replay=replay_xh)
     vlib.run_groups(rep, MOD, groups, seed, only)
     return rep.finish()
 
